@@ -62,8 +62,8 @@ Local Notation dheap_build_sim' :=
 Local Notation pop_at_sim' :=
   (pop_at_sim keq hash ple eview_lookup eview_length prio_at_ok swap_ok swap_remove_ok
      remove_ok set_entry_ok push_entry_ok identity_ok hole_move_ok get_index_of_spec).
-Local Notation dbubble_up_presize_sim' :=
-  (dbubble_up_presize_sim keq ple eview_lookup eview_length prio_at_ok hole_move_ok).
+Local Notation dbubble_up_sim' :=
+  (dbubble_up_sim keq ple eview_lookup eview_length prio_at_ok hole_move_ok).
 Local Notation find_min_sim' := (find_min_sim keq eview_length).
 Local Notation find_max_sim' := (find_max_sim keq ple eview_length prio_at_ok).
 Local Notation peek_min_sim' := (peek_min_sim keq eview_lookup eview_length).
@@ -211,28 +211,24 @@ Proof.
     destruct (push_entry_ok Hk s (k, p) HWF Hg) as [HWFp Hevp].
     set (n := ssize s).
     set (pe := push_entry s (k, p)) in *.
-    change (dbubble_up ple _ _ _) with (dbubble_up ple (set_size pe n) n n).
+    change (dbubble_up ple _ _ _) with (dbubble_up ple pe n n).
     pose proof HWF as (Lm & (Lh & Lq & _) & _).
     assert (Hhn : heap pe !! n = Some n) by (apply list_lookup_middle; done).
     assert (Hqn : qp pe !! n = Some n) by (apply list_lookup_middle; done).
     pose proof (fill_id pe n n Hhn Hqn) as Hfill.
-    assert (HWFf : WF (fill (set_size (set_size pe n) (S (ssize (set_size pe n)))) n n)).
-    { change (set_size (set_size pe n) (S (ssize (set_size pe n)))) with pe.
-      rewrite Hfill. done. }
-    destruct (dbubble_up_presize_sim' (set_size pe n) n n HWFf Hf) as
+    assert (HWFf : WF (fill pe n n)) by (rewrite Hfill; done).
+    destruct (dbubble_up_sim' pe n n HWFf Hf) as
       (s' & pos' & l' & t & Hab & Hco & HWF' & Hev' & Hm' & Hsz' & Htk' & Hfu' & Hcp' & Hle).
-    { cbn. lia. } { cbn. lia. }
-    change (set_size (set_size pe n) (S (ssize (set_size pe n)))) with pe in Hab.
+    { change (ssize pe) with (S n). lia. } { change (ssize pe) with (S n). lia. }
     rewrite Hfill, Hevp in Hab.
     rewrite Hco. bind.
-    eexists None, _. split; [reflexivity|]. splits; try done.
-    + change (fuse (set_size s' (S (ssize s')))) with (fuse s'). rewrite Hfu'. exact Hf.
+    exists None, s'. split; [reflexivity|]. splits; try done.
+    + rewrite Hfu'. exact Hf.
     + intros ->. rewrite Hev'.
       pose proof (a_dpush_new_ok Ho (eview s) (k, p) (Hord eq_refl)) as [H1 _].
       unfold a_dpush_new in H1. rewrite (eview_length s HWF) in H1.
       fold n in H1. rewrite Hab in H1. exact H1.
-    + change (ticks (set_size s' (S (ssize s')))) with (ticks s').
-      rewrite Htk'. change (ticks (set_size pe n)) with (ticks s).
+    + rewrite Htk'. change (ticks pe) with (ticks s).
       pose proof (dpq_cost snd ple (eview s)) as (Hc & _). specialize (Hc (k, p)).
       unfold a_dpush_new in Hc. rewrite (eview_length s HWF) in Hc.
       fold n in Hc. rewrite Hab in Hc. cbn [fst snd] in Hc. unfold lg. fold n. lia.
@@ -593,6 +589,8 @@ Proof.
   assert (Hnd' : nodup_keys keq m') by (by apply (retain_list_nodup keq hash Hk)).
   assert (Hlen : length m' <= ssize s).
   { rewrite <- Lm. apply retain_list_length. }
+  unfold realign. cbv zeta.
+  change (smap (set_map s m')) with m'.
   change (ssize (set_map s m')) with (ssize s).
   destruct (decide (length m' = ssize s)) as [Heq|Hne]; bind.
   - assert (Hinv1 : dpq_inv false (set_map s m')).
